@@ -116,6 +116,11 @@ def corruptions(rng, frame, quick):
         out.append(('insert', frame[:i] + [rng.randrange(256)] + frame[i:]))
         out.append(('insert-ws', frame[:i] + [rng.choice([0x09, 0x0A, 0x0B, 0x0C, 0x0D, 0x20, 58, 0x7B, 0x7D, 0x30, 0x00, 0xFF])] + frame[i:]))
         out.append(('truncate', frame[:i]))
+        if i + 1 < n and frame[i] != frame[i + 1]:
+            # two neighbouring bytes exchanged (at the end of an RTU / binary frame: the checksum bytes in the wrong order)
+            out.append(('swap', frame[:i] + [frame[i + 1], frame[i]] + frame[i + 2:]))
+        if i + 3 < n and frame[i:i + 2] != frame[i + 2:i + 4]:
+            out.append(('swap-pairs', frame[:i] + frame[i + 2:i + 4] + frame[i:i + 2] + frame[i + 4:]))   # e.g. two ASCII hex pairs
     return out
 
 
